@@ -213,8 +213,30 @@ CHECKS["C01"] = {
             "(CacheValue::to_do writes timeout 0), noted in DESIGN as an observation.",
 }
 
+
+CHECKS["C04"] = {
+    "text": "Partial (three writers only). Proof (Verus, unbounded) of a CRASH-POINT INVARIANT on the real text of LogInnerManager::write and "
+            "RaftIndexInnerManager::{write_index, write_last_applied_log}: the extractor inserts a ghost assertion after EVERY statement that holds a file "
+            "mutation (write_all / set_len; the places come from the syn call spans of the current text, transformation T19), so the invariant is checked at "
+            "every instant between two file mutations, under the property's crash model (each write call atomic, program order). Log file: the disk image is at "
+            "every such instant the image of a log that a reopen recovers (generalised reopen theorem lemma_reopen over states whose sparse index may lag) and "
+            "that log is the log as it was or the log with exactly the new record behind it — never a partial or foreign entry, never an index entry that "
+            "points behind the data; lemma_crash_append_meaning states what that means for the reopen computation (record count old or old+1, old records "
+            "byte-identical, header / index area / record stream well formed). Index file: after the only mutation of each writer the file holds the old or the "
+            "new (last-applied, term / vote / membership / catalogue) pair — a length prefix never stands before a body it does not belong to. "
+            "The proof script at a crash point speaks only of the state at entry and of the handles' contents before / after that mutation, so it is the same "
+            "at every point and follows the writes when they move.",
+    "note": "NOT covered (no contract within reach — actor message chains, several files, rename / remove): LogInnerManager::strip_log_to (two zeroing writes; a "
+            "removal of more than 65 535 records would need a weaker invariant) and the creation branch of LogInnerManager::init (header write, then set_len: the "
+            "256-byte intermediate file does reopen as an empty log, by inspection only); RaftLogManager roll-over / catalogue-before-file ordering, snapshot "
+            "pointer insertion, split-off; RaftSnapshotManager::complete_snapshot (remove old files, then save catalogue); install_snapshot; the db_lock; the "
+            "last-applied index never pointing past snapshot + log (spans three actors). No bounded stand-in exists for these: a violation there is NOT detected by "
+            "this check. Assumed: the file model of shims/tokio_fs.rs (two handles on one path are independent byte sequences, A-SAMEFILE), axiom_vec_of_seq "
+            "(every finite sequence is the view of some Vec; names a ghost witness only).",
+    "design_ref": "DESIGN.md §0.9",
+}
+
 NOT_APPLICABLE = {
-    "C04": "crash points between file writes of several actors need a crash-Hoare logic over an external resource; neither Verus nor Kani models intermediate disk states (DESIGN §6)",
     "C06": "multi-process cluster, fault schedules and eventual convergence (liveness); async-raft internals are an external crate (DESIGN §6)",
     "C08": "snapshot installation across processes through actix future chains whose only effects are messages to other actors (DESIGN §6)",
     "C15": "convergence after quiescence across nodes: liveness over message schedules and node failures (DESIGN §6)",
